@@ -1203,7 +1203,7 @@ impl Exec {
                     match shadow::with(|sh| sh.block_of_text(a.addr)) {
                         Some((b, size)) => {
                             if size < 16usize.saturating_add(a.cap) {
-                                self.fail(&["C06", "C05", "C03"], format!("after `{opline}` h{i} reports capacity {} but its allocation B{b} holds only {size} bytes (header included)", a.cap));
+                                self.fail(&["C06", "C05", "C03", "C11"], format!("after `{opline}` h{i} reports capacity {} but its allocation B{b} holds only {size} bytes (header included)", a.cap));
                             }
                         }
                         None => self.fail(&["C06", "C05", "C03"], format!("after `{opline}` heap handle h{i} (capacity {}) does not point into a live allocation", a.cap)),
@@ -1229,13 +1229,15 @@ impl Exec {
         // C08: cloning never allocates, never copies to the heap, shares the bytes
         if matches!(base, "clone" | "from_ref" | "to_ls" | "clone_from") && ok {
             let src = t.get(2).and_then(|x| x.parse::<usize>().ok()).and_then(|s| after.get(s).cloned().flatten());
+            // C10: a copy of a handle that borrows a static text keeps borrowing it, without allocating
+            let props: &[&'static str] = if src.as_ref().map(|s| s.kind == 'S').unwrap_or(false) { &["C08", "C10"] } else { &["C08"] };
             if !requests.is_empty() {
-                self.fail(&["C08"], format!("`{opline}` issued allocator requests {:?}", events.iter().map(|e| e.fmt()).collect::<Vec<_>>()));
+                self.fail(props, format!("`{opline}` issued allocator requests {:?}", events.iter().map(|e| e.fmt()).collect::<Vec<_>>()));
             }
             if let (Some(s), Some(d)) = (&src, &a_t) {
                 let same = if s.kind == 'I' { d.kind == 'I' && d.ptr == "self" } else { s.ptr == d.ptr && s.kind == d.kind && s.addr == d.addr };
                 if !same || s.text != d.text || s.len != d.len {
-                    self.fail(&["C08"], format!("`{opline}`: copy {} does not share/equal source {}", d.fmt(0), s.fmt(0)));
+                    self.fail(props, format!("`{opline}`: copy {} does not share/equal source {}", d.fmt(0), s.fmt(0)));
                 }
             }
         }
